@@ -18,4 +18,8 @@ def run(ck):
     codec.spec_from_buffer(ck)
     codec.spec_read_head(ck)
     codec.spec_decode_socks_frame(ck)
-    ck.post_filter = lambda o: not o.label.startswith(('C11/', 'C12/', 'C03/'))
+    codec.spec_stream_frame_reader(ck, nreads=2)
+    codec.spec_socks_request_reader(ck, 'NoAuth')
+    codec.spec_socks_request_reader(ck, 'PasswordAuth')
+    codec.spec_socks_response_reader(ck)
+    ck.post_filter = lambda o: not o.label.startswith(('C11/', 'C12/', 'C03/', 'C06/', 'C07/'))
